@@ -483,3 +483,9 @@ VARIANTS.append({"prop": "C15", "id": "C15:helper-for-write-other-target", "expe
 for _p in ("C08", "C10"):
     B(_p, "rest-local-in-finder", HDP, "            comment = style.comment_at_first_character(text[index:])\n", "            rest = text[index:]\n            comment = style.comment_at_first_character(rest)\n")
     V(_p, "finder-window-bounded", "F", "R4", HDP, "            comment = style.comment_at_first_character(text[index:])\n", "            comment = style.comment_at_first_character(text[index : index + 4096])\n")
+B("C18", "extracted-text-local", RPT, '                    out.write(f"ExtractedText: <text>{fp.read()}</text>\\n")\n', '                    text = fp.read()\n                    out.write(f"ExtractedText: <text>{text}</text>\\n")\n')
+V("C17", "unlink-in-finally", "F", "R1", R + "cli/convert_dep5.py", '    (project.root / "REUSE.toml").write_text(text)\n    (project.root / ".reuse/dep5").unlink()\n', '    try:\n        (project.root / "REUSE.toml").write_text(text)\n    finally:\n        (project.root / ".reuse/dep5").unlink()\n')
+V("C16", "decode-surrogatepass", "F", "R5", EXP, 'errors="replace"', 'errors="surrogatepass"')
+B("C16", "decode-ignore", EXP, 'errors="replace"', 'errors="backslashreplace"')
+V("C15", "ignored-set-rooted", "F", "R6", R + "vcs.py", "        return {Path(file_) for file_ in all_files if file_}\n", "        return {self.root / file_ for file_ in all_files if file_}\n")
+V("C03", "query-not-relative", "F", "R6", R + "vcs.py", "        path = relative_from_root(path, self.root)\n        return path not in self._all_tracked_files\n", "        path = self.root / path\n        return path not in self._all_tracked_files\n")
